@@ -62,7 +62,7 @@ EOF
   done
   (cd "$VERIF/sim" && go build -modfile="$scratch/harness.inst.mod" -o "$out/verifsim" ./cmd/verifsim) || infra "simulator does not build against the instrumented working tree"
   (cd "$VERIF/sim" && go build -modfile="$scratch/harness.plain.mod" -o "$out/verifsim-plain" ./cmd/verifsim) || infra "simulator does not build against the plain working tree"
-  cp "$scratch/instrument.json" "$out/instrument.json"
+  [ "$out" = "$scratch" ] || cp "$scratch/instrument.json" "$out/instrument.json"
 }
 
 case "$mode" in
